@@ -14,7 +14,7 @@ import re
 import numpy as np
 
 from .. import build
-from ..ctx import stable_hash
+from ..ctx import stable_hash, mouette_site
 from ..ref import geomq
 from ..zoo import surfaces, volumes, c07_planar
 
@@ -772,6 +772,17 @@ def option_sweep(ctx, env, R, funcs, rng, judge):
                             np.all(np.abs(arr - first) <= 1e-12 * (1.0 + float(np.max(np.abs(first)))) * np.ones_like(first)))
                         ctx.check(same, "options", "persistent_dense_agree", "%s:result_depends_on_persistent_or_dense" % key,
                                   "%s: persistent=%s dense=%s gives other values than persistent=True dense=True" % (key, persistent, dense))
+    if "vertex_normals" in funcs:
+        import mouette as M
+        spec = funcs["vertex_normals"]
+        for w in ("uniform", "area", "angle"):
+            for spell, ws in (("UPPER", w.upper()), ("Capitalised", w.capitalize())):
+                m = env.fresh()
+                ok, attr = call_mode(ctx, "vertex_normals:" + w + ":" + spell, spell, M.attributes.vertex_normals, m, interpolation=ws,
+                                     persistent=rng.random() < 0.5, dense=rng.random() < 0.5)
+                if ok:
+                    arr = read_values(ctx, "vertex_normals", attr, env.count("vertices"), 3)
+                    judge(ctx, "ref", "vertex_normals", {"interpolation": w}, arr, R, env)
     return base
 
 
@@ -912,6 +923,22 @@ def _make_attr(m, container, n, dim, storage, value, on_mesh, name):
     return a
 
 
+def call_mode(ctx, site, spell, f, *args, **kw):
+    """Call with a mode string.  A non-lower spelling that the library refuses with its argument error is 'not accepted' (noted, not judged)."""
+    if spell == "lower":
+        return ctx.call(site, f, *args, abort=False, **kw)
+    ok, val = ctx.call(site, f, *args, expect=(Exception,), abort=False, **kw)
+    if ok:
+        return True, val
+    e = val
+    if type(e).__name__.startswith("InvalidArgument") or "not recognized" in str(e):
+        ctx.note("mode_spelling_rejected:" + site)
+        return False, e
+    ctx.violation("call", site, "exception:%s@%s" % (type(e).__name__, mouette_site(e.__traceback__) or "harness"),
+                  "unexpected %s in %s: %s" % (type(e).__name__, site, str(e)[:200]))
+    return False, e
+
+
 def interpolation_constants(ctx, env, rng, kind):
     import mouette as M
     A = M.attributes
@@ -930,7 +957,10 @@ def interpolation_constants(ctx, env, rng, kind):
             plans.append(("average_corners_to_faces", "face_corners", "faces", w))
     sizes = {"vertices": nV, "faces": nF, "face_corners": nC}
     for routine, src, dst, w in plans:
-        for rep in range(2):
+        for rep in range(2 if w is None else 3):
+            # mode strings are accepted case-insensitively (weight.lower()): lower, UPPER and Capitalised spellings are all driven
+            spell = ("lower", "UPPER", "Capitalised")[rep] if w is not None else "lower"
+            ws = w if spell == "lower" else (w.upper() if spell == "UPPER" else w.capitalize()) if w is not None else None
             dim = rng.choice([1, 1, 3, 2])
             if dim == 1:
                 c = rng.choice([1.0, -2.5, 1e-3, 7e4, rng.uniform(-10, 10)])
@@ -955,13 +985,25 @@ def interpolation_constants(ctx, env, rng, kind):
             if not ok:
                 continue
             f = getattr(A, routine)
-            kw = {} if w is None else {"weight": w}
-            site = routine + ("" if w is None else ":" + w)
-            ok, res = ctx.call(site, f, m, ain, aout, abort=False, **kw)
+            kw = {} if w is None else {"weight": ws}
+            site = routine + ("" if w is None else ":" + w) + ("" if spell == "lower" else ":" + spell)
+            if w is not None:
+                ctx.cls("mode_spelling:" + spell)
+            ok, res = call_mode(ctx, site, spell, f, m, ain, aout, **kw)
             if not ok:
                 continue
             if w == "sum":
-                continue  # a sum, not an interpolation: driven (no exception), not judged
+                # a sum, not an interpolation: not judged against the constant; but every accepted spelling must do the same thing
+                if spell != "lower":
+                    ok, aout2 = ctx.call("make_attribute", _make_attr, m, dst, sizes[dst], dim, out_storage, None, False, "c07_out2", abort=False)
+                    if ok:
+                        ok, res2 = ctx.call(routine + ":sum", f, m, ain, aout2, abort=False, weight="sum")
+                        a1 = read_values(ctx, site, res, sizes[dst], dim) if ok else None
+                        a2 = read_values(ctx, site, res2, sizes[dst], dim) if ok else None
+                        if a1 is not None and a2 is not None:
+                            compare(ctx, "identity", "interp_mode_spelling/" + site, a1, a2, 1e-12 * (1 + np.max(np.abs(a2))),
+                                    what="weight=%r must behave like weight='sum'" % ws)
+                continue
             arr = read_values(ctx, site, res, sizes[dst], dim)
             if arr is None:
                 continue
